@@ -1,7 +1,7 @@
 """Build real sc3 SynthDefs from *programs* and project what happened (used by drivers c01/c02/c20).
 
 A program (see spec/SynthGraph.tla, "Programs") is
-    {name, ctl: [{n, r, d (, w: width of an array-valued control)}], ins: [{op, cls, sel, rate, nout, a: [{k, i, ch}]}]}
+    {name, ctl: [{n, r, d (, w: width of an array-valued control) (, lag: lag of a kr control)}], ins: [{op, cls, sel, rate, nout, a: [{k, i, ch}]}]}
     op  = gen (unit constructor) | un | bin | madd | sum
     operand k = "c" constant i | "r" channel ch of the result of instruction i (1-based) | "p" control i (1-based)
 The graph function calls the real constructors / Python operators exactly as a user would write them.
@@ -264,7 +264,8 @@ class Builder:
                    m=[0] * len(prog['ins']), created=[], wf=[], late=0, proj_err='')
         rec['parsed']['defs'] = []
         func = self.graph_function(prog, log, hook)
-        rates = [CTL_RATE[c['r']] for c in prog['ctl']]
+        # a control-rate parameter with a lag is declared through rates=[number]
+        rates = [c['lag'] if (c['r'] == 1 and c.get('lag')) else CTL_RATE[c['r']] for c in prog['ctl']]
         data = None
         sd = None
         try:
